@@ -433,6 +433,6 @@ def scenarios(tier, seed):
         for ftype, cost, srcs, cons, fx, lm in fits[:6]:
             S.append(Scenario("fit-2cycles/%s/%s/%d" % (ftype, cost, len(S)), sc_fit, family="fit/%s" % ftype, params=dict(ftype=ftype, cost=cost, sources=tuple(srcs), constraints=tuple(cons), fixed=fx, limited=lm, cycles=2)))
     for w in ("own-from_file", "overwrite", "tiny-errors"):
-        S.append(Scenario("files/%s" % w, sc_files, family="files", params=dict(what=w)))
+        S.append(Scenario("files/%s" % w, sc_files, family="files", params=dict(what=w), concrete_only=True))
     S.append(Scenario("twin/wrong-factor", sc_twin, twin=True))
     return S
